@@ -46,6 +46,8 @@ def check(run):
     run.assumptions += ["embedded collections and list-valued single positions are only required not to invent IRIs",
                         "duplicate addressees may or may not survive (lists compared by first occurrences)",
                         "generic type names (Object, Actor, Activity, IntransitiveActivity) are not used for roots"]
+    from props import lifecommon
+    lifecommon.run_life(run, "flatten", "flatten")
 
 
 def replay(run, path):
